@@ -297,6 +297,24 @@ def _mst_basic_before_last_router(ctx):
 CASE_PREDICATES["mst_basic_before_last_router"] = _mst_basic_before_last_router
 
 
+def _field_holds_lowest_double(case):
+    """some update of the case gives a field in which at least two nodes hold numeric_limits<double>::lowest()"""
+    for st in case.get("steps", []):
+        z = st.get("z") if st.get("op") == "update" else None
+        if isinstance(z, dict) and z.get("k") == "lit" and sum(1 for v in z.get("v", []) if v == "-1.7976931348623157e308") >= 2:
+            return True
+    return False
+
+
+def _graph_has_mst_or_basin_graph(ctx):
+    ops = ctx.get("ops") or []
+    return any(o.get("k") == "mst" for o in ops) or ctx.get("event") == "BasinGraph"
+
+
+CASE_PREDICATES["field_holds_lowest_double"] = _field_holds_lowest_double
+CASE_PREDICATES["graph_has_mst_or_basin_graph"] = _graph_has_mst_or_basin_graph
+
+
 def case_predicate(fn):
     CASE_PREDICATES[fn.__name__] = fn
     return fn
